@@ -663,7 +663,9 @@ def select__range_expression(self: XPathToken, context: ta.ContextType = None) -
 def evaluate__idiv_operator(self: XPathToken, context: ta.ContextType = None) -> int:
     op1, op2 = self.get_operands(context, cls=NumericProxy)
     if op1 is None or op2 is None:
-        raise self.error('XPST0005')
+        if any(tk.symbol == '(' and not tk for tk in self):
+            raise self.error('XPST0005')  # a literal empty sequence
+        return []  # type: ignore[return-value]
 
     try:
         if math.isinf(op1):
